@@ -313,17 +313,29 @@ Proof.
     + destruct pw; destruct (norm_dn dn); auto.
 Qed.
 
+(* an old protocol version is refused - after the evaluated name and the presented password
+   have been recorded *)
 Lemma ldap_bind_old_version creds login ver dn pw :
   ver < 2 ->
-  ldap_bind creds login ver dn pw = (login, Some (1%N, RES_PROTOCOL), mkLE T_BIND None None).
+  ldap_bind creds login ver dn pw =
+    (login, Some (1%N, RES_PROTOCOL), mkLE T_BIND (Some (norm_dn dn)) (Some pw)).
 Proof. intros H. unfold ldap_bind. assert (ver <? 2 = true) as -> by lia. reflexivity. Qed.
+
+(* every simple bind, whatever its version and outcome, produces the event with the evaluated
+   name and the presented password *)
+Lemma ldap_bind_event creds login ver dn pw :
+  snd (ldap_bind creds login ver dn pw) = mkLE T_BIND (Some (norm_dn dn)) (Some pw).
+Proof.
+  unfold ldap_bind. destruct (ver <? 2); [reflexivity|].
+  destruct (bind_func creds login (norm_dn dn) pw). reflexivity.
+Qed.
 
 (* a successful login as observed on the wire: a bind (version >= 2) answered with success whose
    evaluated name is not empty *)
 Definition succ_login (x : lreq * lreply * levent) : bool :=
   match fst (fst x) with
   | LBind ver dn pw => (2 <=? ver) && reply_ok (snd (fst x)) && negb (is_nil (norm_dn dn))
-  | LOp _ => false
+  | _ => false
   end.
 
 Lemma is_login_is_nil l : is_login l = negb (is_nil l).
@@ -334,7 +346,8 @@ Lemma ldap_step_login creds login r login' rp ev :
   is_login login' = true ->
   is_login login = true \/ succ_login (r, rp, ev) = true.
 Proof.
-  destruct r as [ver dn pw | tag]; cbn [ldap_step].
+  destruct r as [ver dn pw | ver | ver | ver dn | tag]; cbn [ldap_step];
+    try (unfold ldap_bind_fallthrough; intros E; inversion E; subst; auto; fail).
   - unfold ldap_bind. destruct (ver <? 2) eqn:Ev.
     + intros E; inversion E; subst; auto.
     + unfold bind_func.
@@ -430,43 +443,47 @@ Qed.
 Lemma ostr_eqb_refl o : ostr_eqb o o = true.
 Proof. destruct o; cbn; auto. apply eqb_str_refl. Qed.
 
-(* the finding class: histories containing a bind with protocol version < 2 *)
-Definition bind_version_ok (r : lreq) : bool :=
-  match r with LBind ver _ _ => 2 <=? ver | LOp _ => true end.
-
 Lemma ldap_walk_model creds reqs : forall login logged,
-  forallb bind_version_ok reqs = true ->
   (is_login login = true -> logged = true) ->
   let out := snd (ldap_run creds login reqs) in
   ldap_sig_walk creds logged reqs (map (fun x => snd (fst x)) out) (map snd out) = 0%N.
 Proof.
-  induction reqs as [|r rest IH]; intros login logged Hv Hl; cbn zeta; cbn [ldap_run]; [reflexivity|].
-  cbn [forallb] in Hv. apply andb_true_iff in Hv as [Hv0 Hv].
+  induction reqs as [|r rest IH]; intros login logged Hl; cbn zeta; cbn [ldap_run]; [reflexivity|].
   destruct (ldap_step creds login r) as [[login' rp] ev] eqn:Es.
   destruct (ldap_run creds login' rest) as [fin out] eqn:Er.
   cbn [snd fst map ldap_sig_walk].
   specialize (IH login'). rewrite Er in IH. cbn [snd] in IH.
-  specialize (fun lg => IH lg Hv).
-  destruct r as [ver dn pw | tag]; cbn [ldap_step] in Es.
-  - destruct (ver <? 2) eqn:Ev.
-    + cbn [bind_version_ok] in Hv0. lia.
+  destruct r as [ver dn pw | ver | ver | ver dn | tag]; cbn [ldap_step] in Es.
+  - pose proof (ldap_bind_event creds login ver dn pw) as Hev. rewrite Es in Hev. cbn [snd] in Hev.
+    subst ev. unfold levent_bind_ok. cbn [le_type le_user le_pw]. rewrite !ostr_eqb_refl.
+    change ((T_BIND =? T_BIND)%N) with true. cbn [andb negb].
+    destruct (ver <? 2) eqn:Ev.
+    + rewrite ldap_bind_old_version in Es by lia. inversion Es; subst.
+      assert (2 <=? ver = false) as -> by lia. cbn [reply_ok andb orb].
+      change ((RES_PROTOCOL =? 0)%N) with false. cbn [andb negb orb].
+      rewrite orb_false_r. apply IH, Hl.
     + destruct (ldap_bind_spec creds login ver dn pw ltac:(lia)) as [l' [code [E [Hc Hcodes]]]].
       rewrite E in Es. inversion Es; subst.
       assert (reply_ok (Some (1%N, code)) = ldap_spec creds dn pw) as Hok.
       { apply Bool.eq_iff_eq_true. rewrite ldap_spec_iff, <- Hc. cbn [reply_ok].
         rewrite N.eqb_eq. reflexivity. }
-      rewrite Hok. destruct (ldap_spec creds dn pw) eqn:Sp; cbn [andb negb].
-      * unfold levent_bind_ok. cbn [le_type le_user le_pw]. rewrite !ostr_eqb_refl. cbn.
-        apply IH. intros L.
+      rewrite Hok. assert (2 <=? ver = true) as -> by lia.
+      destruct (ldap_spec creds dn pw) eqn:Sp; cbn [andb negb orb].
+      * apply IH. intros L.
         destruct (ldap_step_login creds login (LBind ver dn pw) login' _ _ E L) as [H|H].
         -- rewrite (Hl H). reflexivity.
         -- unfold succ_login in H. cbn [fst snd] in H. rewrite Hok in H.
            apply andb_true_iff in H as [_ H]. rewrite H. apply orb_true_r.
-      * unfold levent_bind_ok. cbn [le_type le_user le_pw]. rewrite !ostr_eqb_refl. cbn.
-        rewrite orb_false_r. apply IH. intros L.
+      * rewrite orb_false_r. apply IH. intros L.
         destruct (ldap_step_login creds login (LBind ver dn pw) login' _ _ E L) as [H|H]; auto.
         unfold succ_login in H. cbn [fst snd] in H. rewrite Hok in H.
         rewrite andb_false_r in H. discriminate.
+  - unfold ldap_bind_fallthrough in Es. inversion Es; subst. cbn [le_type].
+    change ((T_BIND =? T_BIND)%N) with true. cbn [negb]. apply IH, Hl.
+  - unfold ldap_bind_fallthrough in Es. inversion Es; subst. cbn [le_type].
+    change ((T_BIND =? T_BIND)%N) with true. cbn [negb]. apply IH, Hl.
+  - unfold ldap_bind_fallthrough in Es. inversion Es; subst. cbn [le_type le_user].
+    change ((T_BIND =? T_BIND)%N) with true. rewrite ostr_eqb_refl. cbn [andb negb]. apply IH, Hl.
   - destruct (ldap_catchall login tag) as [rp' ev'] eqn:Ec. inversion Es; subst.
     destruct (ldap_gated tag) eqn:G; cbn [andb].
     + destruct (ldap_catchall_code login' tag G) as [rt E]. rewrite Ec in E. cbn [fst] in E.
@@ -477,26 +494,26 @@ Proof.
 Qed.
 
 Lemma lcase_sig_model id creds reqs :
-  forallb bind_version_ok reqs = true ->
   let out := ldap_session creds reqs in
   lcase_sig (mkLCase id creds reqs (map (fun x => snd (fst x)) out) (map snd out)) = 0%N.
 Proof.
-  intros Hv. cbn zeta. unfold lcase_sig, ldap_session. cbn [lc_creds lc_reqs lc_replies lc_events].
-  apply (ldap_walk_model creds reqs [] false Hv). discriminate.
+  cbn zeta. unfold lcase_sig, ldap_session. cbn [lc_creds lc_reqs lc_replies lc_events].
+  apply (ldap_walk_model creds reqs [] false). discriminate.
 Qed.
 
-(* finding: a bind with version < 2 is an authentication attempt whose event carries neither
-   the name nor the password presented *)
-Lemma ldap_old_version_event_refuted :
-  exists creds reqs,
-    forallb bind_version_ok reqs = false /\
-    let out := ldap_session creds reqs in
-    map snd out = [mkLE T_BIND None None] /\
-    lcase_sig (mkLCase 0 creds reqs (map (fun x => snd (fst x)) out) (map snd out))
-      = SIG_LDAP_OLDVER_EVENT.
+(* in every history, from every session state, the event recorded for a simple bind carries the
+   evaluated name and the presented password *)
+Lemma ldap_run_bind_events creds reqs : forall login ver dn pw rp ev,
+  In (LBind ver dn pw, rp, ev) (snd (ldap_run creds login reqs)) ->
+  ev = mkLE T_BIND (Some (norm_dn dn)) (Some pw).
 Proof.
-  exists [[114;111;111;116;58;114;111;111;116]%N], [LBind 1 [114;111;111;116]%N [114;111;111;116]%N].
-  vm_compute. repeat split; reflexivity.
+  induction reqs as [|r rest IH]; intros login ver dn pw rp ev; cbn [ldap_run]; [intros []|].
+  destruct (ldap_step creds login r) as [[login' rp'] ev'] eqn:Es.
+  destruct (ldap_run creds login' rest) as [fin out] eqn:Er. cbn [snd In].
+  intros [H|H].
+  - inversion H; subst. cbn [ldap_step] in Es.
+    pose proof (ldap_bind_event creds login ver dn pw) as Hev. rewrite Es in Hev. exact Hev.
+  - specialize (IH login' ver dn pw rp ev). rewrite Er in IH. auto.
 Qed.
 
 (* ------------------------------------------------------------------ *)
